@@ -10,7 +10,7 @@
 (*        reserved bits are unchanged (zero in default objects), every getter *)
 (*        returns the bits the layout assigns to it                            *)
 (*   NC   raw bytes after = Put(raw bytes before, field, value)               *)
-EXTENDS Layout, Payloads, TLC, Json, IOUtils
+EXTENDS Layout, Frames, TLC, Json, IOUtils
 
 Log == ndJsonDeserialize(IOEnv.TRACE)
 
@@ -18,7 +18,7 @@ VARIABLES l, ep, live, st, cnt
 vars == << l, ep, live, st, cnt >>
 
 St0 == [has |-> FALSE, cls |-> "", raw |-> << >>, get |-> [x \in {} |-> << >>]]
-Cnt0 == [sets |-> 0, loads |-> 0, news |-> 0, flag_sets |-> 0, wide_sets |-> 0, nonzero_background |-> 0, builds |-> 0,
+Cnt0 == [rawhdrs |-> 0, sets |-> 0, loads |-> 0, news |-> 0, flag_sets |-> 0, wide_sets |-> 0, nonzero_background |-> 0, builds |-> 0,
          rebuilds |-> 0]
 
 Init == l = 1 /\ ep = "" /\ live = FALSE /\ st = St0 /\ cnt = Cnt0
@@ -150,6 +150,14 @@ Step ==
               /\ cnt' = [cnt EXCEPT !.builds = @ + 1,
                                     !.rebuilds = @ + (IF st.has /\ Len(st.raw) > Table[e.cls].size THEN 1 ELSE 0)]
               /\ UNCHANGED << ep, live >>
+         [] live /\ e.e = "obj.rawhdr" ->
+              (* the headers a packet renders: layout of spec/Frames.tla from the packet's own getters *)
+              LET p == e.pkt IN
+              /\ Report(IF e.cmp # FrameHdr(p.ver, p.dev, p.mt, p.st, p.seq)
+                            \/ e.msg # p.ts \o IdBytes(p.mt, p.ifid, p.vid) \o << p.fl, p.pt >> \o BE16(p.len)
+                         THEN {"C12"} ELSE {})
+              /\ cnt' = [cnt EXCEPT !.rawhdrs = @ + 1]
+              /\ UNCHANGED << ep, live, st >>
          [] OTHER ->
               /\ Report({"UNKNOWN-EVENT"}) /\ Unch
 
